@@ -197,6 +197,12 @@ def catalogue():
     add('inv', lambda X: A.inv(_wc(X)), [(M, 'R')], ['linalg'])
     add('solve', lambda X, B: A.solve(_wc(X), B), [(M, 'R'), ((3, 2), 'R')], ['linalg'])
     add('solve:const_rhs', lambda X: A.solve(_wc(X), np.array([[1., 2.], [0., -1.], [3., 0.5]])), [(M, 'R')], ['linalg', 'const'])
+    # constant matrices as they come out of LAPACK / transposes: Fortran-ordered, transposed views (the constant is kept by the graph)
+    KC = np.array([[4., 1., -1.], [0.5, 3., 1.], [1., -0.5, 5.]])
+    add('solve:const_A', (lambda K: lambda B: A.solve(K, B))(KC.copy()), [((3, 2), 'R')], ['linalg', 'const', 'nopb'])
+    add('solve:const_A_fortran', (lambda K: lambda B: A.solve(K, B))(np.asfortranarray(KC)), [((3, 2), 'R')], ['linalg', 'const', 'layout', 'nopb'])
+    add('solve:const_A_transposed_vec', (lambda K: lambda b: A.solve(K.T, b))(KC.copy()), [((3,), 'R')], ['linalg', 'const', 'layout', 'nopb'])
+    add('dot:const_left_fortran', (lambda K: lambda b: A.dot(K, b))(np.asfortranarray(KC)), [((3, 2), 'R')], ['dot', 'const', 'layout'])
     add('det', lambda X: A.det(_wc(X)), [(M, 'R')], ['linalg'])
     add('det:pivoting', lambda X: A.det(_wc(X)[::-1]), [(M, 'R')], ['linalg', 'pivot'])
     add('logdet', lambda X: A.logdet(_spd(X)), [(M, 'R')], ['linalg'])
